@@ -12,6 +12,9 @@
 //	                                                      [c, n, n200, n404, dig]; dig = digest over (url,status,body digest))
 //	tl     {inst, asset, rep, N, n0, tfdt, dur}           cache-enabled read-mode instances: the served segments n0.. of one
 //	                                                      representation (first tfdt and total sample duration of each)
+//	mtl    {inst, asset, rep, N, t, d, st, tfdt}          the scanning server (inst -1) and the same instances: the first N+2 entries
+//	                                                      (t, d) the SegmentTimeline MPD declares and, per entry, status and first
+//	                                                      tfdt of the segment served for $Time$ = t
 //	files  {inst, write, files}                           the metadata files after the start: [[path, digest], ...]
 package c15
 
@@ -35,6 +38,7 @@ import (
 	"time"
 
 	"github.com/Dash-Industry-Forum/livesim2/cmd/livesim2/app"
+	"github.com/Eyevinn/mp4ff/mp4"
 
 	"verifharness/assetgen"
 	"verifharness/drive/tl"
@@ -86,6 +90,7 @@ var mappings = [][2]string{
 	{"g_irr90k/A48", "bad_dur/V600"},
 	{"testpic_2s/thumbs", "testpic_2s/V300"},
 	{"g_twov/V600", "g_1001tl/V300"},
+	{"g_gap/V300", "g_gap/A48"},
 }
 
 // ---------------------------------------------------------------- VoD root with ground truth
@@ -99,6 +104,9 @@ type assetTruth struct {
 	Text *project.RepTruth
 	TL   *tl.Asset
 	Thumbs int
+	// MediaGap: the sample durations of the first video segment end before the second segment's decode time (legal; the
+	// loaded table lets a segment end where the next starts). The media-derived window is not judged for its video.
+	MediaGap bool
 }
 
 func copyTree(src, dst string) error {
@@ -257,6 +265,41 @@ func buildMaster(root string) ([]*assetTruth, error) {
 		}
 		res = append(res, &assetTruth{Name: "g_twov", Adm: true, V: t.Video})
 	}
+	// admissible, $Number$ addressing, the last sample of the first video segment is 1500 ticks short: only the loaded
+	// table (previous segment ends where the next starts) makes the timeline contiguous
+	{
+		l := assetgen.Layout{Name: "g_gap", TS: 90000, SampleDur: 3000, SegSamples: []int{60, 60, 60, 60}, AudioSegFrames: aud, MpdStyle: "number"}
+		t, err := gen(l)
+		if err != nil {
+			return nil, err
+		}
+		sp := filepath.Join(root, "g_gap", "V300", "1.m4s")
+		raw, err := os.ReadFile(sp)
+		if err != nil {
+			return nil, err
+		}
+		f, err := mp4.DecodeFile(bytes.NewReader(raw))
+		if err != nil {
+			return nil, err
+		}
+		if len(f.Segments) != 1 || len(f.Segments[0].Fragments) == 0 {
+			return nil, fmt.Errorf("g_gap: unexpected structure of generated segment")
+		}
+		frs := f.Segments[0].Fragments
+		trun := frs[len(frs)-1].Moof.Traf.Trun
+		if !trun.HasSampleDuration() || trun.Samples[len(trun.Samples)-1].Dur != 3000 {
+			return nil, fmt.Errorf("g_gap: generated segment has no per-sample durations of 3000")
+		}
+		trun.Samples[len(trun.Samples)-1].Dur = 1500
+		var buf bytes.Buffer
+		if err := f.Encode(&buf); err != nil {
+			return nil, err
+		}
+		if err := os.WriteFile(sp, buf.Bytes(), 0o644); err != nil {
+			return nil, err
+		}
+		res = append(res, &assetTruth{Name: "g_gap", Adm: true, V: t.Video, A: t.Audio, MediaGap: true})
+	}
 	// inadmissible 1: loop is not a whole number of milliseconds (100 samples of 3001 ticks at 90 kHz = 3334.4.. ms)
 	{
 		l := assetgen.Layout{Name: "bad_ms", TS: 90000, SampleDur: 3001, SegSamples: []int{50, 50}, MpdStyle: "number"}
@@ -347,6 +390,20 @@ func buildPool(assets []*assetTruth, ref *srv.S) (*pool, error) {
 		}
 		for _, rt := range reps {
 			add("init", num.Prefix(a.Name)+"/"+rt.InitURI, t1MS)
+		}
+		// ClearKey (ECCP) protected variants of an avc / aac representation: MPD, init and media
+		for _, scheme := range []string{"eccp_cbcs", "eccp_cenc"} {
+			dc := tl.Cfg{Mode: "number", SNR: -1, TSBD: -1, Extra: []string{scheme}}
+			if scheme == "eccp_cbcs" {
+				add("drm", dc.Prefix(a.Name)+"/"+a.MPDs[0], t1MS)
+			}
+			for _, rt := range reps {
+				if rt.Kind == "text" {
+					continue
+				}
+				add("drm", dc.Prefix(a.Name)+"/"+rt.InitURI, t1MS)
+				add("drm", tl.SegURL(dc, a.TL, rt, int64(a.V.N)+1), t1MS)
+			}
 		}
 		if a.Name == "g_twov" || a.Name == "bad_dur" {
 			add("init", num.Prefix(a.Name)+"/V600/init.mp4", t1MS)
@@ -554,6 +611,94 @@ func observe(s *srv.S, assets []*assetTruth, p *pool, memo *parseMemo, wantWin b
 	return res
 }
 
+// mpdTimeline: what the server DECLARES in its SegmentTimeline MPD against what it SERVES for the declared entries: the
+// first cnt entries (t, d) of the representation's timeline (expanded) and, for each, the status and the first tfdt of the
+// segment requested with $Time$ = t (-1: not 200 / not parseable).
+type mtlObs struct {
+	rep            string
+	t, d, st, tfdt []int64
+}
+
+type mpdMemo struct {
+	mu sync.Mutex
+	m  map[string]*project.XMPD
+}
+
+var mpdCache = &mpdMemo{m: map[string]*project.XMPD{}}
+
+func observeTimeline(s *srv.S, a *assetTruth, memo *parseMemo) ([]mtlObs, int) {
+	tim := tl.Cfg{Mode: "time", SNR: -1, TSBD: -1}
+	r := s.Get(q(tim.Prefix(a.Name)+"/"+a.MPDs[0], t1MS))
+	nreq := 1
+	if r.Status != 200 {
+		return nil, nreq
+	}
+	key := fullDigest(r.Body)
+	mpdCache.mu.Lock()
+	m := mpdCache.m[key]
+	mpdCache.mu.Unlock()
+	if m == nil {
+		var err error
+		m, err = project.ParseMPD(r.Body)
+		if err != nil {
+			return nil, nreq
+		}
+		mpdCache.mu.Lock()
+		mpdCache.m[key] = m
+		mpdCache.mu.Unlock()
+	}
+	var res []mtlObs
+	for _, rt := range []*project.RepTruth{a.V, a.A} {
+		if rt == nil {
+			continue
+		}
+		as := m.FindAS(0, rt.Kind, rt.ID)
+		o := mtlObs{rep: rt.ID, t: []int64{}, d: []int64{}, st: []int64{}, tfdt: []int64{}}
+		if as != nil && as.SegmentTemplate != nil && as.SegmentTemplate.Timeline != nil {
+			var t uint64
+			cnt := a.V.N + 2
+		outer:
+			for _, e := range as.SegmentTemplate.Timeline.S {
+				if e.T != nil {
+					t = *e.T
+				}
+				for j := 0; j <= e.R; j++ {
+					if len(o.t) >= cnt {
+						break outer
+					}
+					u := strings.ReplaceAll(strings.ReplaceAll(as.SegmentTemplate.Media, "$RepresentationID$", rt.ID), "$Time$", fmt.Sprint(t))
+					sr := s.Get(q(tim.Prefix(a.Name)+"/"+u, t1MS))
+					nreq++
+					tf := int64(-1)
+					if sr.Status == 200 {
+						if w := memo.get(sr.Body, fullDigest(sr.Body), rt); w.ok {
+							tf = w.tfdt
+						}
+					}
+					o.t, o.d, o.st, o.tfdt = append(o.t, int64(t)), append(o.d, int64(e.D)), append(o.st, int64(sr.Status)), append(o.tfdt, tf)
+					t += e.D
+				}
+			}
+		}
+		res = append(res, o)
+	}
+	return res, nreq
+}
+
+func (wk *worker) emitTimeline(inst int, s *srv.S, a *assetTruth) {
+	if s == nil {
+		return
+	}
+	obs, nreq := observeTimeline(s, a, wk.memo)
+	wk.requests += nreq
+	for _, o := range obs {
+		if len(o.t) >= a.V.N+1 {
+			wk.fullTimelines++
+		}
+		wk.w.Emit(tr.E{"ev": "mtl", "inst": inst, "asset": a.Name, "rep": o.rep, "N": a.V.N, "t": o.t, "d": o.d, "st": o.st, "tfdt": o.tfdt})
+	}
+}
+
 func startServer(vod, rdRoot string, write bool) (s *srv.S, errStr string) {
 	defer func() {
 		if r := recover(); r != nil {
@@ -719,6 +864,7 @@ type worker struct {
 
 	instances, cacheRead, requests int
 	fullWindows, precondFailed     int
+	fullTimelines                  int
 	tStart, tObs                   time.Duration
 	outcomes                       map[string]int
 	samples                        []any
@@ -786,8 +932,9 @@ func (wk *worker) emitInstance(inst int, write bool, root string, s *srv.S, errS
 		}
 		wk.w.Emit(tr.E{"ev": "asset", "inst": inst, "asset": a.Name, "listed": o.listed, "cls": o.cls, "diff": diff})
 		if wantWin && oc != "absent" {
+			wk.emitTimeline(inst, s, a)
 			for _, rt := range []*project.RepTruth{a.V, a.A} {
-				if rt == nil {
+				if rt == nil || (a.MediaGap && rt == a.V) {
 					continue
 				}
 				win := o.win[rt.ID]
@@ -914,6 +1061,14 @@ func (wk *worker) reference(buildPoolNow bool) error {
 		}
 		wk.w.Emit(tr.E{"ev": "ref", "vod": wk.id, "asset": a.Name, "adm": a.Adm, "reps": repKeys(a), "nv": a.V.N, "na": na,
 			"listed": o.listed, "cls": o.cls})
+		if a.Adm {
+			// the scanning server's own declared timeline against what it serves (inst -1)
+			before := wk.fullTimelines
+			wk.emitTimeline(-1, s, a)
+			if wk.fullTimelines-before == 0 {
+				return fmt.Errorf("reference server: no complete declared timeline for asset %s", a.Name)
+			}
+		}
 	}
 	return nil
 }
@@ -1092,7 +1247,7 @@ func Main(args []string) error {
 			return e
 		}
 	}
-	events, instances, cacheRead, requests, fullWindows, precondFailed := 0, 0, 0, 0, 0, 0
+	events, instances, cacheRead, requests, fullWindows, precondFailed, fullTimelines := 0, 0, 0, 0, 0, 0, 0
 	var tStart, tObs time.Duration
 	outcomes := map[string]int{}
 	var traces []string
@@ -1106,6 +1261,7 @@ func Main(args []string) error {
 		requests += wk.requests
 		fullWindows += wk.fullWindows
 		precondFailed += wk.precondFailed
+		fullTimelines += wk.fullTimelines
 		tStart += wk.tStart
 		tObs += wk.tObs
 		for o, c := range wk.outcomes {
@@ -1132,7 +1288,7 @@ func Main(args []string) error {
 	}
 	tr.PrintStats(map[string]any{"scenarios": len(sel), "behaviours_available": len(all), "events": events, "distinct": len(distinct),
 		"samples": samples, "instances": instances, "cache_read_instances": cacheRead, "requests": requests, "pool": wks[0].pool.n + 1,
-		"outcomes": outcomes, "assets": names, "traces": traces, "probe_cache_is_read": probe, "full_contig_windows": fullWindows, "damage_on_unusable_file": precondFailed, "workers": len(wks),
+		"outcomes": outcomes, "assets": names, "traces": traces, "probe_cache_is_read": probe, "full_contig_windows": fullWindows, "full_declared_timelines": fullTimelines, "damage_on_unusable_file": precondFailed, "workers": len(wks),
 		"cpu_start_s": tStart.Seconds(), "cpu_observe_s": tObs.Seconds()})
 	return nil
 }
